@@ -31,7 +31,7 @@ def all_orders(sys, cap=720):
 
 
 def run(ctx):
-    n = ctx.scale(90, 900)
+    n = ctx.scale(70, 900)
     systems = [(pc.witness_early_exit(), {"family": "witness"}), (pc.witness_real_position_skip(), {"family": "witness"}),
            (pc.witness_volume_bound(), {"family": "witness"})]
     for s in pc.small_systems()[1:: ctx.scale(4, 1)]:
@@ -57,48 +57,51 @@ def run(ctx):
                      orders_per_system=len(ords), perturbation=tags.get("perturbation", tags["family"]),
                      all_permutations=nc <= 4)
         ctx.impl_property_evals += 1
-        d = pc.c27_violation(s, outs)
+        d = pc.c27_disagreement(outs)
         if d:
-            ctx.violation({"sys": pc.strip(s), "orders": [list(o) for o, _ in outs]}, d)
+            if not ctx.violations:                      # shrink the first one only
+                _report(ctx, s, ords)
+            else:
+                ctx.violation({"sys": pc.strip(s), "orders": [[list(d[1][0]), list(d[1][1])], [list(d[2][0]), list(d[2][1])]]}, d[0])
     compare(ctx, jobs)
 
 
 # ------------------------------------------------------------------------------------------- S
 def _report(ctx, s, ords):
-    """shrink (fewer constraints / objects, all their orders) and report"""
-    def fails(c):
-        return property_fails(c, all_orders(c, cap=120))
-    small, d = pc.shrink(s, fails)
-    if small is not None:
-        ctx.violation({"sys": small, "orders": [list(o) for o in all_orders(small, cap=120)]}, d)
+    """shrink (fewer constraints / objects, same relative orders) and report"""
+    outs = [((oo, co), pc.run_impl(s, oo, co)) for oo, co in ords]
+    d = pc.c27_disagreement(outs)
+    if d is None:
+        return False
+    detail, a, b = d
+    res = pc.shrink_pair(s, a, b, lambda c, o2, c2: property_fails(
+        c, [(list(range(len(c["objects"]))), list(range(len(c["constraints"])))), (o2, c2)]))
+    if res is not None:
+        small, pair = res
+        ctx.violation({"sys": small, "orders": [[list(o), list(c)] for o, c in pair]}, property_fails(small, pair))
     else:
-        ctx.violation({"sys": pc.strip(s), "orders": [list(o) for o in ords]}, property_fails(s, ords))
+        ctx.violation({"sys": pc.strip(s), "orders": [[list(a[0]), list(a[1])], [list(b[0]), list(b[1])]]}, detail)
+    return True
 
 
 def search(ctx, hints):
     for h in hints[:40]:
         if isinstance(h, dict) and "sys" in h:
             s = h["sys"]
-            ords = all_orders(s, cap=120)
             ctx.impl_property_evals += 1
-            if property_fails(s, ords):
-                _report(ctx, s, ords)
+            if _report(ctx, s, all_orders(s, cap=120)):
                 return
     for s in pc.small_systems():
-        ords = all_orders(s)
         ctx.impl_property_evals += 1
-        if property_fails(s, ords):
-            _report(ctx, s, ords)
+        if _report(ctx, s, all_orders(s)):
             return
     rng = ctx.rng.fork()
     for _ in range(ctx.scale(1200, 6000)):
         s, _tags = pc.gen_system(rng)
-        ords = pc.orders(s, rng, max_perm_cons=4, n_random=8)
         ctx.impl_property_evals += 1
-        if property_fails(s, ords):
-            _report(ctx, s, ords)
+        if _report(ctx, s, pc.orders(s, rng, max_perm_cons=4, n_random=8)):
             return
 
 
 def replay(ctx, inp):
-    return property_fails(inp["sys"], [tuple(o) for o in inp["orders"]])
+    return property_fails(inp["sys"], [(list(o), list(c)) for o, c in inp["orders"]])
